@@ -104,6 +104,10 @@ pub struct Cost {
 /// One step of `instr` with operands of magnitude m; deterministic cost.
 fn measure(sc: &OpSc, m: i64, iset: &mut InstructionSet) -> Result<Cost, PanicInfo> {
     let cfg = ConfigSpec::default_cfg();
+    let mut env = EnvScript::quiet(sc.env_seed);
+    env.draw_budget = u64::MAX;
+    // begin first: the state's graphs take their node ids from the simulated counter
+    simenv::begin(&env, Envelope::off(), &[], None);
     let mut st = sc.state.build(&cfg);
     for (k, l) in sc.int_layout.iter().enumerate() {
         st.int_stack.push(operand(*l, m, sc.small_ints[k % sc.small_ints.len()]));
@@ -114,9 +118,6 @@ fn measure(sc: &OpSc, m: i64, iset: &mut InstructionSet) -> Result<Cost, PanicIn
     }
     st.exec_stack.push(Item::instruction(sc.instr.clone()));
     let statebytes = statecode::statecode(&st).len() as u64;
-    let mut env = EnvScript::quiet(sc.env_seed);
-    env.draw_budget = u64::MAX;
-    simenv::begin(&env, Envelope::off(), &[], None);
     simenv::trace_note(&sc.instr);
     let cache = iset.cache();
     let before = alloc::snapshot();
@@ -167,7 +168,18 @@ pub fn execute_op(sc: &OpSc, iset: &mut InstructionSet) -> OpResult {
     mags.extend(sc.magnitudes.iter().cloned());
     for m in mags {
         stats.steps += 1;
-        match measure(sc, m, iset) {
+        // measured twice, the cheaper reading counts: one-time lazy initialisation
+        // (thread-locals, formatting tables) is not a cost of the step
+        let first = measure(sc, m, iset);
+        let second = match &first {
+            Ok(c) if c.bytes <= A_BYTES / 4 && c.wall_ms < 100 => measure(sc, m, iset),
+            _ => Err(PanicInfo { msg: String::new(), file: String::new(), line: 0 }),
+        };
+        let best = match (first, second) {
+            (Ok(a), Ok(b)) => Ok(if b.bytes < a.bytes { b } else { a }),
+            (a, _) => a,
+        };
+        match best {
             Err(_p) => {
                 // a crashing step is C01's matter
                 stats.outcome = "panic".into();
